@@ -119,4 +119,61 @@ theorem sevenths_inv_eq_model (ref est : List PyCmp.Str) :
     Mir.Gen.chord.sevenths_inv ref est = cmpLabels .seventhsInv ref est := by
   cmp_proof Mir.Gen.chord.sevenths_inv ref est
 
+/-! ### mirex -/
+
+/-- `rotate_bitmaps_to_roots` on rows of length 12 is the row-wise `ChordCompare.rotate` (through the regenerated
+    `rotate_bitmap_to_root`, `C11.GenFns.rotate_bitmap_to_root_eq_model`) -/
+theorem rotate_bitmaps_to_roots_tab (n : Nat) (bm : Nat → List Int) (root : Nat → Int) (h : ∀ i, (bm i).length = 12) :
+    Mir.Gen.chord.rotate_bitmaps_to_roots (tab n bm) (tab n root) =
+      .ok (tab n fun i => ChordCompare.rotate (bm i) (root i)) := by
+  unfold Mir.Gen.chord.rotate_bitmaps_to_roots
+  rw [zip_tab]
+  rw [mapM_tab_ok n (fun i => (bm i, root i)) _ (fun i => ChordCompare.rotate (bm i) (root i))
+    (fun i _ => by
+      simp only [Mir.C11.GenFns.rotate_bitmap_to_root_eq_model (bm i) (root i) (by rw [h i]), bind, Except.bind,
+        pure, Except.pure])]
+  simp only [bind, Except.bind, asarrayRows]
+  rw [stackRows_ok _ 12 (by
+    intro r hr
+    obtain ⟨i, _, rfl⟩ := mem_tab.1 hr
+    rw [length_rotate, h i])]
+
+theorem mirex_eq_model (ref est : List PyCmp.Str) (hne : ref ≠ []) :
+    Mir.Gen.chord.mirex ref est = cmpLabels .mirex ref est := by
+  unfold Mir.Gen.chord.mirex cmpLabels
+  rw [validate_eq_model]
+  cases hv : validateLists ref est with
+  | error e => rfl
+  | ok u =>
+    simp only [PyCmp.encode_many, Chord.pyEncodeMany, bind, Except.bind]
+    cases hr : Chord.encodeAll false ref with
+    | error e => rfl
+    | ok rs =>
+      have hbR := fun i => Reachable.bm_length (rowAt_reachable hr i)
+      simp only [map_root_tab, map_bm_tab, map_bass_tab, rotate_bitmaps_to_roots_tab _ _ _ hbR]
+      cases he : Chord.encodeAll false est with
+      | error e => rfl
+      | ok es =>
+        have hbE := fun i => Reachable.bm_length (rowAt_reachable he i)
+        have hrl := ((Chord.encodeAll_ok_iff false ref rs).1 hr).1
+        have hel := ((Chord.encodeAll_ok_iff false est es).1 he).1
+        have hlen : es.length = rs.length := by have := validateLists_ok_length hv; omega
+        have hn0 : rs.length ≠ 0 := by
+          intro h0; apply hne; apply List.eq_nil_of_length_eq_zero; omega
+        simp only [map_root_tab, map_bm_tab, map_bass_tab, hlen, rotate_bitmaps_to_roots_tab _ _ _ hbE,
+          zipWith_cmp_tab _ rs es hlen]
+        simp [bind, Except.bind, pure, Except.pure, vecEq, bvecAnd, bvecOr, zipSame, zipWith_tab, map_tab,
+          astypeFloat, maskSet, maskSet0d, isEmpty_tab, hn0, anyAxis1, allAxis1, matCmpS, vecCmpS, matMul, sameShape, all_tab,
+          sumAxis1, countAxis1, length_rotate, hbR, hbE, countPos_map]
+        apply tab_congr; intro i _
+        have hc : (List.filter id (List.map (fun x => decide (0 < x)) (rowAt rs i).bm)).length =
+            ((rowAt rs i).bm.filter (fun v => decide (v > 0))).length := by
+          rw [List.filter_map, List.length_map]; rfl
+        simp [ChordCompare.cmp, ChordCompare.mirex, ChordCompare.dot, countPos, maskX, anyNeg, b2i, Cmp.test, hc]
+
+/-- on two EMPTY lists mirex does not return an empty array as the other eleven rules do: `np.asarray([])` is 1-D, the
+    score is a 0-d `numpy.float64`, and the first masked store raises TypeError (observed on the real function; C11
+    quantifies over label PAIRS, so this is outside its statement) -/
+theorem mirex_empty : Mir.Gen.chord.mirex [] [] = .error .typeError := by rfl
+
 end Mir.C11.GenCmp
